@@ -226,7 +226,9 @@ Step ==
                 \* something between the highest ACK seen and the highest sequence sent) resets the bound to its own edge;
                 \* any other window-bearing segment delivered later may or may not have been taken and can only raise it.
                 newE == g.ack + g.win * Pow2(shp)
+                \* (in LAST-ACK the code answers an ACK that acknowledges nothing new with a challenge ACK and takes nothing from it)
                 certain == learn /\ ~g.syn /\ ~g.fin /\ r.before \in DataStates \cup {"FIN-WAIT-2"} /\ r.before = r.post.st
+                           /\ (r.before # "LAST-ACK" \/ g.ack > maxAckRcvd[e])
                            /\ g.seq >= Max(maxRxEnd[e], 1) /\ g.seq < advEdge[e] /\ g.ack >= maxAckRcvd[e] /\ g.ack <= maxSent[e]
                 ce2 == IF newConn THEN 0 ELSE IF certain THEN newE ELSE IF learn /\ curEdge[e] > 0 THEN Max(curEdge[e], newE) ELSE curEdge[e]
                 meJ == IF ce2 > 0 THEN ce2 ELSE me2
@@ -257,8 +259,10 @@ Step ==
                /\ hits' = [hits EXCEPT !["R3"] = @ + Len(r.out), !["S1"] = @ + Len(r.out), !["T1"] = @ + (IF r.before # r.post.st THEN 1 ELSE 0),
                                        !["L1"] = @ + 1, !["K3"] = @ + (IF IsTcp(g) /\ ~g.cs THEN 1 ELSE 0),
                                        !["T3"] = @ + (IF IsTcp(g) /\ g.rst THEN 1 ELSE 0)]
-               \* certain evidence that the socket accepted g: it changed state, or acknowledged new data in the same poll
-               /\ lastFresh' = [lastFresh EXCEPT ![e] = IF good /\ (r.before # r.post.st \/ f.la > lastAckEm[e]) THEN r.now ELSE @]
+               \* certain evidence that the socket accepted g: it changed state, or g is a plain valid segment at or beyond everything
+               \* delivered so far and inside the advertised window (an ACK number that advances in the same poll is no evidence: it
+               \* may belong to data that arrived earlier and whose acknowledgment was delayed)
+               /\ lastFresh' = [lastFresh EXCEPT ![e] = IF good /\ (r.before # r.post.st \/ certain) THEN r.now ELSE @]
                /\ curEdge' = [curEdge EXCEPT ![e] = ce2]
                /\ maxRxEnd' = [maxRxEnd EXCEPT ![e] = IF good THEN Max(@, g.seq + SegLen(g)) ELSE @]
                /\ UNCHANGED <<wrT, dl, closedAt, scripted>>
